@@ -47,6 +47,12 @@ func init() {
 			if o.Kind == KStringOpt && r.Chance(1, 2) {
 				o.Valid = []string{"va", "vb"}
 			}
+			if o.Kind == KMap {
+				o.Suggested = []string{"os=", "arch=", "debug"}
+			}
+			if o.Kind == KStrings && r.Chance(1, 2) {
+				o.SuggFn = []string{"dyn=", "dynb"}
+			}
 			// env-bound options read the variable the fuzz case sets
 			if o.Env != "" {
 				o.Env = "VERIF_FUZZ_ENV"
